@@ -107,6 +107,7 @@ def run(tier, seed, replay):
         if len(res.coverage["samples"]) < 4 and style not in ("orig",) and len(text) < 400:
             res.sample({"cfg": G.cfg_wire(cfg), "tag": tag, "text": text[:400], "fmt": r["f1"][:400]})
         for k, w in G.judge_layout_only(r):
+            res.hist("failure_histogram", k)
             fails.append((k, w, cfg, text, tag))
     res.coverage["evaluations"] = n_ok
     res.coverage["comments_compared"] = n_comments
@@ -114,15 +115,21 @@ def run(tier, seed, replay):
     res.coverage["distinct_nontrivial"] = len(distinct)
     res.coverage["rule"] = ("cases = (text, [format] setting) pairs the parser accepts; non-trivial = at least 8 tokens and "
                             "formatting changes the text; distinct by (text, setting)")
-    res.obligation("layout-only oracle (parses, tokens, comments, emitted SV) on %d parseable (text, setting) cases" % n_ok,
-                   not fails)
+    unknown = [f for f in fails if f[0] not in res.known]
+    res.coverage["known_finding_cases"] = len(fails) - len(unknown)
+    res.obligation("layout-only oracle (parses, tokens, comments, emitted SV) on %d parseable (text, setting) cases, "
+                   "outside the classes of KNOWN_FINDINGS.txt" % n_ok, not unknown)
 
     def still_fails(key, cfg):
-        def p(t):
-            r = G.run_cases(binary, [(cfg, t)], "ts")[0]
-            if key == "panic":
-                return r["status"] in ("PANIC", "CRASH")
-            return r["status"] == "OK" and any(k == key for k, _ in G.judge_layout_only(r))
+        def p(texts):
+            rs = G.run_cases(binary, [(cfg, t) for t in texts], "ts")
+            out = []
+            for r in rs:
+                if key == "panic":
+                    out.append(r["status"] in ("PANIC", "CRASH"))
+                else:
+                    out.append(r["status"] == "OK" and any(k == key for k, _ in G.judge_layout_only(r)))
+            return out
         return p
 
     seen = set()
@@ -130,10 +137,13 @@ def run(tier, seed, replay):
         if k in seen:
             continue
         seen.add(k)
+        if k in res.known:
+            res.violation(k, w, {})
+            continue
         small = text
         tk = G.tokenize(binary, [text])[0]
         if tk:
-            small = G.shrink_text(text, tk, still_fails(k, cfg), budget=200 if tier == "quick" else 600)
+            small = G.shrink_text(text, tk, still_fails(k, cfg), budget=250 if tier == "quick" else 800)
         r = G.run_cases(binary, [(cfg, small)], "ts")[0]
         w2 = w
         if r["status"] == "OK":
